@@ -326,6 +326,52 @@ func runSeq(rp *explore.Report, tier string) {
 			}
 		}
 	}
+	// a resolver that returns only an error, failing for one object, in every execution mode: the sequential
+	// reference has no result for such a query, so Execute must fail too (never render the field)
+	for di, d := range data {
+		if len(d.Users) == 0 {
+			continue
+		}
+		hooks := &gqlfix.Hooks{Before: func(ctx context.Context, field string, keys []int64) error {
+			if field == "ack" {
+				return fmt.Errorf("ack refused for %v", keys)
+			}
+			return nil
+		}}
+		for mode := gqlfix.Mode(0); mode < gqlfix.NModes; mode++ {
+			schema := gqlfix.Build(d, gqlfix.Modes{"ack": mode}, hooks)
+			for _, fq := range []*qgen.Query{
+				{Root: []*qgen.Node{F("users", F("id"), F("ack"))}},
+				{Root: []*qgen.Node{F("usersV", F("ack"))}},
+				{Root: []*qgen.Node{F("users", F("friend", F("ack")), F("name"))}},
+			} {
+				ev := &refeval.Eval{D: d, Q: fq}
+				ev.Run()
+				reached := false
+				for _, in := range ev.Instances {
+					reached = reached || in.Field == "ack"
+				}
+				if !reached {
+					continue // no object for the failing field in this data set
+				}
+				text := fq.String()
+				for si, sched := range []graphql.WorkScheduler{gqlfix.FIFO{}, gqlfix.LIFO{}} {
+					k++
+					if !rp.Mine(k) {
+						continue
+					}
+					rp.Cases++
+					rp.Nontrivial++
+					got, err := gqlfix.Exec(context.Background(), schema, sched, text, nil)
+					if err == nil {
+						rp.AddViolation(&explore.Violation{Item: fmt.Sprintf("data=%d ack=%s sched=%d %s", di, mode, si, text), Stable: true,
+							Signature: "c01/failing-resolver-yields-data/" + mode.String(),
+							Failures:  []explore.Failure{{Clause: "result==reference", Msg: fmt.Sprintf("every call of the resolver of ack failed, yet Execute returned %s", gqlfix.JS(got))}}})
+					}
+				}
+			}
+		}
+	}
 	rp.AddOutcome(fmt.Sprintf("queries=%d modesets=%d", len(qs), len(ms)))
 }
 
